@@ -32,7 +32,7 @@ CASES = {"quick": 320, "thorough": 10000}
 
 
 def job_items():
-    prog = st.one_of(gen_prog.programs(max_stmts=12), gen_macro.macro_programs(single_file=True, max_stmts=15))
+    prog = st.one_of(gen_prog.programs(max_stmts=12, with_control=True), gen_macro.macro_programs(single_file=True, max_stmts=15, with_control=True))
     p_item = prog.map(lambda p: {"kind": "program", "prog": p})
     s_item = decomp.input_strategy(w1=1, w2=1, w3=2, max_stmts=12).map(lambda c: {"kind": "ssb", "case": c})
     return st.one_of(p_item, s_item, s_item)
